@@ -2,6 +2,7 @@ use crate::util::{Rng, RunOut};
 
 pub mod disc;
 pub mod errs;
+pub mod listview;
 pub mod pod;
 pub mod seeds;
 pub mod token;
@@ -12,6 +13,8 @@ pub fn generate(prop: &str, tier: &str, rng: &mut Rng) -> Vec<String> {
         "C17" => token::generate_c17(tier, rng),
         "C13" => pod::generate_c13(tier, rng),
         "C18" => disc::generate(tier, rng),
+        "C09" => listview::generate_c09(tier, rng),
+        "C10" => listview::generate_c10(tier, rng),
         "C11" => seeds::generate(tier, rng),
         "C19" => errs::generate(tier, rng),
         "C14" => pod::generate_c14(tier, rng),
@@ -24,6 +27,7 @@ pub fn run(prop: &str, cases: &[String]) -> RunOut {
         "C16" | "C17" => token::run(prop, cases),
         "C13" | "C14" => pod::run(prop, cases),
         "C18" => disc::run(cases),
+        "C09" | "C10" => listview::run(prop, cases),
         "C11" => seeds::run(cases),
         "C19" => errs::run(cases),
         _ => panic!("unknown property {prop}"),
